@@ -16,6 +16,7 @@ import (
 	"encoding/binary"
 	"encoding/hex"
 	"fmt"
+	"os"
 	"strconv"
 	"strings"
 
@@ -33,8 +34,15 @@ func dataOf(i int) []byte {
 	var b [4]byte
 	binary.BigEndian.PutUint32(b[:], uint32(i))
 	d := append([]byte("c27"), b[:]...)
-	if i%16 == 5 {
+	switch i % 16 {
+	case 5:
 		d = append(d, bytes.Repeat([]byte{0xAA}, 250)...)
+	case 7: // exactly 32 bytes: as long as a hash
+		d = append(d, bytes.Repeat([]byte{0xBB}, 25)...)
+	case 8: // 31 bytes (control)
+		d = append(d, bytes.Repeat([]byte{0xBB}, 24)...)
+	case 9: // 33 bytes (control)
+		d = append(d, bytes.Repeat([]byte{0xBB}, 26)...)
 	}
 	return d
 }
@@ -359,12 +367,71 @@ func mutatePath(r *hx.Rand, u *univ, value []byte, steps [][2]int, list []int) (
 	return b, kind, extra
 }
 
+// nodes on the way from leaf idx to the root: nodes[j] = hash after the first j steps (nodes[0] = the leaf)
+func (u *univ) chain(leaf int, steps [][2]int) []int {
+	out := []int{leaf}
+	h := leaf
+	for _, s := range steps {
+		if s[0] == 0 {
+			h = u.node(s[1], h)
+		} else {
+			h = u.node(h, s[1])
+		}
+		out = append(out, h)
+	}
+	return out
+}
+
+func pLine(label string, u *univ, list []int, value []byte, steps [][2]int) string {
+	var names []int
+	for _, s := range steps {
+		names = append(names, s[1])
+	}
+	return fmt.Sprintf("P:%s %d %s %s %s = %s", label, u.A, u.tabString(), kString(u, names), u.shows(list), hx.Hex(u.pathBytes(value, steps)))
+}
+
+// forged values: the VALUE is the 32 raw bytes of a node of the tree (the member's leaf hash, or an interior node on its
+// path) combined with the audit path from that node upwards; j = 0: leaf bytes + full path; j > 0: interior node + suffix.
+// HashLeaf(those 32 bytes) is not in the list, so MerkleProve must reject (a verifier that used 32-byte values as the
+// leaf directly would accept).  Also: 31/33 bytes of it (controls) and MerkleLeafPath on the 32 bytes.
+func genForged(r *hx.Rand, u *univ, list []int, idx int, which int) string {
+	steps := u.refSteps(list, idx)
+	ch := u.chain(list[idx], steps)
+	j := 0
+	if len(steps) > 0 {
+		j = r.Intn(len(steps)) // never the root itself with an empty path? allow j up to len-1; root case below
+	}
+	if which == 3 {
+		j = len(steps) // the root's bytes with the empty path
+	}
+	hb, _ := u.realOf(ch[j])
+	switch which {
+	case 0, 3:
+		return pLine(fmt.Sprintf("value=node-bytes(level%d)", imin(j, 1)), u, list, hb[:], steps[j:])
+	case 1:
+		return pLine("value=node-bytes-31(control)", u, list, hb[:31], steps[j:])
+	case 2:
+		return pLine("value=node-bytes-33(control)", u, list, append(append([]byte{}, hb[:]...), 0), steps[j:])
+	default:
+		return fmt.Sprintf("G %d %s %s %s", u.A, u.tabString(), u.shows(list), hx.Hex(hb[:]))
+	}
+}
+
+func imin(a, b int) int {
+	if a < b {
+		return a
+	}
+	return b
+}
+
 func gen(r *hx.Rand, tier string, i int) string {
 	n := genSize(r, tier)
 	u := newUniv(n+3, true)
 	list, _ := genList(r, u, n)
 	root := u.mth(list) // names all nodes of the tree
-	switch r.Intn(10) {
+	switch r.Intn(12) {
+	case 10, 11:
+		return genForged(r, u, list, r.Intn(n), r.Intn(5))
 	case 0:
 		return fmt.Sprintf("L %d %s %s", u.A, u.tabString(), u.shows(list))
 	case 1, 2, 3:
@@ -377,6 +444,14 @@ func gen(r *hx.Rand, tier string, i int) string {
 			d = r.Bytes(r.Intn(12))
 		default:
 			m := list[r.Intn(n)]
+			if r.Chance(30) { // a member whose value is exactly 32 / 31 / 33 bytes long, if the list has one
+				for _, x := range list {
+					if x < u.A && (x%16 == 7 || x%16 == 8 || x%16 == 9) && r.Chance(50) {
+						m = x
+						break
+					}
+				}
+			}
 			if m < u.A {
 				d = dataOf(m)
 			} else {
@@ -515,6 +590,14 @@ func parsePath(b []byte) (value []byte, steps [][2]interface{}, ok bool) {
 	return v, steps, true
 }
 
+func lenTag(d []byte) string {
+	switch len(d) {
+	case 31, 32, 33:
+		return fmt.Sprintf("(len%d)", len(d))
+	}
+	return ""
+}
+
 func merr(err error) string {
 	s := err.Error()
 	switch {
@@ -612,7 +695,7 @@ func exec(line string) hx.Result {
 			} else if strings.HasPrefix(perr.Error(), "values doesn't exist") {
 				k = "err:notfound"
 			}
-			res := hx.Result{Out: k, Kind: "G:" + k, Key: line}
+			res := hx.Result{Out: k, Kind: "G:" + k + lenTag(data), Key: line}
 			if member >= 0 && len(list)*33+len(data)+8 <= 1024*1024 {
 				res.Fail, res.Class = "MerkleLeafPath refuses a member", "path-refused-for-member"
 			}
@@ -635,7 +718,7 @@ func exec(line string) hx.Result {
 		if len(ss) > 0 {
 			sj = strings.Join(ss, ",")
 		}
-		res := hx.Result{Out: fmt.Sprintf("ok v=%s %s", hx.Hex(v), sj), Kind: "G:ok", Key: line}
+		res := hx.Result{Out: fmt.Sprintf("ok v=%s %s", hx.Hex(v), sj), Kind: "G:ok" + lenTag(data), Key: line}
 		root := merkle.TreeHasher{}.HashFullTreeWithLeafHash(rl)
 		got, verr := merkle.MerkleProve(path, root)
 		switch {
@@ -751,11 +834,50 @@ func corpus() []string {
 	return out
 }
 
+// minimal cases for values that are as long as a hash (also written to corpus/C27/value-len32.ops)
+func corpusLen32() []string {
+	var out []string
+	for _, n := range []int{1, 2, 3, 8, 10} {
+		u := newUniv(n+3, true)
+		list := make([]int, n)
+		for i := range list {
+			list[i] = i
+		}
+		if n >= 8 {
+			list[0], list[7] = 7, 0 // a 32-byte member first
+		}
+		u.mth(list)
+		rd := hx.NewRand(uint64(n))
+		for idx := 0; idx < n && idx < 3; idx++ {
+			for which := 0; which < 5; which++ {
+				out = append(out, genForged(rd, u, list, idx, which))
+			}
+		}
+		for _, m := range list {
+			if m%16 == 7 || m%16 == 8 || m%16 == 9 {
+				out = append(out, fmt.Sprintf("G %d %s %s %s", u.A, u.tabString(), u.shows(list), hx.Hex(dataOf(m))))
+				for j, x := range list {
+					if x == m {
+						out = append(out, pLine("honest(len32-member)", u, list, dataOf(m), u.refSteps(list, j)))
+					}
+				}
+			}
+		}
+	}
+	return out
+}
+
 func main() {
+	if os.Getenv("C27_PRINT_CORPUS") != "" {
+		for _, l := range corpusLen32() {
+			fmt.Println(l)
+		}
+		return
+	}
 	hx.Main(hx.Prop{
 		ID: "C27",
 		Rule: "lists of 1..200 (thorough: ..3000) leaf hashes (atoms; permuted / with a duplicate / with an inner node as element), L = pairing levels + full-tree hash, G = MerkleLeafPath for members, non-members and unknown data, " +
-			"P = MerkleProve on the RFC audit path of a member with one of 15 mutations (flag flip, flag>=2, sibling replaced, step dropped/inserted/swapped, value changed, trailing bytes, truncation, irregular length prefix, byte deleted, 32+ steps, first step skipped, foreign root). corpus: every member of every size 1..40, the 1 MiB limit. Non-trivial = every line",
+			"values of length 32/31/33 among the members; forged values = the 32 raw bytes of the member's leaf hash / of an interior node on its path (and 31/33-byte controls) with the path from that node upwards, and MerkleLeafPath on them; P = MerkleProve on the RFC audit path of a member with one of 15 mutations (flag flip, flag>=2, sibling replaced, step dropped/inserted/swapped, value changed, trailing bytes, truncation, irregular length prefix, byte deleted, 32+ steps, first step skipped, foreign root). corpus: every member of every size 1..40, the 1 MiB limit. Non-trivial = every line",
 		Gen:    gen,
 		Exec:   exec,
 		Corpus: corpus(),
